@@ -69,7 +69,7 @@ theorem finish_ok {c : Collector} (h : CollOK c) :
   unfold Collector.finish
   by_cases hp : c.producerMode = true
   · simp only [hp, Bool.not_true, Bool.false_eq_true, if_false]
-    exact ⟨⟨h.noExc, h.data, fun _ => by simp [hp]⟩, by simp [hp]⟩
+    exact ⟨⟨h.noExc, h.data, fun _ => by simp⟩, by simp⟩
   · simp [hp, h]
 
 theorem clientLog_ok {c : Collector} (h : CollOK c) (lc : LogCall) :
@@ -276,10 +276,10 @@ theorem callOf_isTurn (env : LoopEnv) (k : Nat) (x : String) : (callOf env k x).
   unfold callOf; split <;> rfl
 @[simp] theorem turnCalls_callOf (env : LoopEnv) (k : Nat) (x : String) (cs : List Callback) :
     turnCalls (callOf env k x :: cs) = turnCalls cs + 1 := by
-  simp [turnCalls, List.filter_cons, callOf_isTurn]
+  simp [turnCalls, callOf_isTurn]
 @[simp] theorem cancelCalls_callOf (env : LoopEnv) (k : Nat) (x : String) (cs : List Callback) :
     cancelCalls (callOf env k x :: cs) = cancelCalls cs := by
-  simp [cancelCalls, List.filter_cons, callOf_isTurn]
+  simp [cancelCalls, callOf_isTurn]
 
 /-- **failed_turn_one_exception.** The output of the loop contains at most one exception batch;
 it contains one exactly when the loop reports a handler error (`streamErr`), which is exactly
@@ -508,9 +508,9 @@ theorem turns_in_order (env : LoopEnv) : ∀ (ins : List InBatch) (k : Nat),
       rcases loop_data_cases env k v lib rest with ⟨e, _, h⟩ | ⟨inVal, c, _, _, _, h⟩
       · simp [h]
       · rcases h with ⟨e, _, h⟩ | ⟨_, _, _, h⟩ | ⟨_, _, h⟩ | ⟨_, _, _, h⟩
-        · simp [h, callOf_index, List.range']
-        · simp [h, callOf_index, List.range']
-        · simp [h, callOf_index, List.range']
+        · simp [h, callOf_index]
+        · simp [h, callOf_index]
+        · simp [h, callOf_index]
         · rw [h]
           simp only [List.filterMap_cons, callOf_index, turnCalls_callOf, ih (k + 1)]
           rw [List.range'_succ]
